@@ -260,3 +260,19 @@ def run(tier):
                      "line terminator is LF (the Unix implementation does not strip CR); the Windows implementation is not exercised",
                      "the debug `naija` binary (no hooks) is built from the working tree of /repo"]
     return v.finish()
+
+
+def replay(path):
+    """bin/check C17 quick --replay FILE: feeds the recorded (input, chunking) to the current binary again."""
+    import json
+    build_naija()
+    rp = json.load(open(path))["replay"]
+    if "input" not in rp:
+        print("real-size case %s: run the quick tier to reproduce (chunk sizes %s, %s)" % (rp.get("case"), rp.get("chunk_sizes"), "file" if rp.get("from_file") else "pipe"))
+        return 2
+    chunks = [bytes(c) for c in rp["chunks"]]
+    exp = [bytes(x) for x in rp["expected"]]
+    st, got, detail = feed(len(exp), chunks)
+    print("input %r fed as %s\n  expected %s\n  got      %s %s" % (show(bytes(rp["input"])), [show(c) for c in chunks], [show(x) for x in exp],
+                                                                   [show(x) for x in got] if got is not None else st, detail))
+    return 0 if st == "ok" and got == exp else 1
